@@ -35,6 +35,8 @@ def overlap_depth(f):
 
 def nontrivial(prop, f, e):
     nmsg = len(f["msgs"])
+    if prop == "C08":
+        return e["ev"] == "Info"
     if prop == "C02":
         return e["ev"] == "Info" or (e["mode"] in ("default", "index") and e["order"] in ("", "file") and nmsg >= 1 and len(f["chunks"]) >= 1)
     if e["ev"] != "Read":
@@ -49,6 +51,26 @@ def nontrivial(prop, f, e):
     return False
 
 
+def sessions(ctx):
+    """Reader sessions (sequences of complete operations on one Reader): ReaderSession.tla is model-checked
+    (Info and index-based reads do not depend on the Reader's history; unindexed reads return a suffix) and every
+    session of its scope is exported for the driver."""
+    if getattr(ctx, "_sessions", None):
+        return ctx._sessions
+    ctx.tlc_model("ReaderSession.tla", "ReaderSession.cfg", workers=4)
+    out, rc, wall = ctx.tlc("ReaderSession.tla", "ReaderSession_export.cfg", workers=1, timeout=600)
+    ss = sorted(set(json.loads('"' + x + '"') for x in re.findall(r'<<"SESSION", "(.*)">>', out)))
+    if not ss:
+        raise MachineryError("ReaderSession.tla exported no sessions:\n" + out[-2000:])
+    import random
+    random.Random(ctx.seed).shuffle(ss)
+    p = os.path.join(ctx.tmp, "sessions.ndjson")
+    open(p, "w").write("\n".join(ss) + "\n")
+    ctx.extra["tlc_sessions_exported"] = len(ss)
+    ctx._sessions = p
+    return p
+
+
 def judge(ctx, prop, name, trace, files, replay_workers=0):
     rej = ctx.tlc_trace("TraceIndexed.tla", "TraceIndexed.cfg", trace, timeout=3000)
     events = read_ndjson(trace)
@@ -60,7 +82,10 @@ def judge(ctx, prop, name, trace, files, replay_workers=0):
         elif e["ev"] == "IFile":
             f = e
         elif e["ev"] in ("Read", "Info"):
-            if e["ev"] == "Read":
+            if "sess" in e:
+                pos[i] = (cur, ("sess", e["sid"]))
+                ctx.extra["session_ops"] = ctx.extra.get("session_ops", 0) + 1
+            elif e["ev"] == "Read":
                 pos[i] = (cur, ridx)
                 ridx += 1
             n += 1
@@ -89,8 +114,10 @@ def judge(ctx, prop, name, trace, files, replay_workers=0):
                         o = json.loads(ln)
                         specs[o["id"]] = o
                 o = dict(specs[rid])
-                if line in pos:
-                    o["specs"] = [o["specs"][pos[line][1]]]
+                if line in pos and isinstance(pos[line][1], tuple):      # an operation of a Reader session: replay that session
+                    o["specs"], o["sess"] = [], [o["sess"][pos[line][1][1]]]
+                elif line in pos:
+                    o["specs"], o["sess"] = [o["specs"][pos[line][1]]], []
                 p = os.path.join(ctx.replay_dir(), "%s-%d.json" % (rid, line))
                 json.dump(o, open(p, "w"))
                 return p
@@ -126,7 +153,7 @@ def run(ctx, prop):
         ctx.tlc_model("IndexedRead.tla", "Indexed_wide.cfg", timeout=3400)
     reads = {"C02": 4, "C03": 4, "C04": 24, "C20": 6}[prop]
     if prop == "C02":
-        drive(ctx, prop, "writer", ["-mode", "writer", "-seed", s, "-n", 300 if quick else 4000, "-reads", reads], replay_workers=8)
+        drive(ctx, prop, "writer", ["-mode", "writer", "-seed", s, "-n", 300 if quick else 4000, "-reads", reads, "-sessions", sessions(ctx), "-nsess", 4], replay_workers=8)
         drive(ctx, prop, "exh", ["-mode", "exh", "-seed", s, "-chunks", 2, "-msgs", 2, "-times", 3, "-stride", 8 if quick else 1, "-reads", reads])
     elif prop in ("C03", "C04"):
         drive(ctx, prop, "replay", ["-mode", "rand", "-seed", s + 7, "-n", 12, "-reads", reads], replay_workers=8)
@@ -135,7 +162,7 @@ def run(ctx, prop):
             drive(ctx, prop, "exh3", ["-mode", "exh", "-seed", s, "-chunks", 3, "-msgs", 2, "-times", 3, "-stride", 4, "-reads", reads])
             drive(ctx, prop, "exh33", ["-mode", "exh", "-seed", s, "-chunks", 3, "-msgs", 3, "-times", 4, "-stride", 6000, "-reads", reads])
         drive(ctx, prop, "rand", ["-mode", "rand", "-seed", s, "-n", 80 if quick else 1500, "-reads", reads])
-        drive(ctx, prop, "writer", ["-mode", "writer", "-seed", s, "-n", 100 if quick else 1000, "-reads", reads])
+        drive(ctx, prop, "writer", ["-mode", "writer", "-seed", s, "-n", 100 if quick else 1000, "-reads", reads, "-sessions", sessions(ctx), "-nsess", 4])
     elif prop == "C20":
         drive(ctx, prop, "overlap", ["-mode", "overlap", "-seed", s, "-n", 20 if quick else 120, "-reads", reads], replay_workers=0)
         drive(ctx, prop, "replay", ["-mode", "overlap", "-seed", s + 3, "-n", 3, "-reads", 2], replay_workers=8)
